@@ -78,9 +78,11 @@ package mocks
 //@ ghost field AsyncProducer.reported int
 //@ guarded AsyncProducer.l: expectations, lastOffset
 
+//@ ghost field AsyncProducer.checked int
 //@ func NewAsyncProducer#lit0.CheckFunction(m)
 //@   returns e
-//@   modifies nothing
+//@   effect mp.checked == old(mp.checked) + 1
+//@   modifies mp.checked
 //@ func NewAsyncProducer#lit0.Partitioner(t)
 //@   returns p
 //@   modifies nothing
@@ -94,6 +96,9 @@ package mocks
 //@   callsite ErrorReporter.Errorf: effect mp.reported == old(mp.reported) + 1
 //@   callsite ErrorReporter.Errorf: modifies mp.reported
 //@   callsite ErrorReporter.Errorf#3: requires[close_reports_only_leftovers] len(mp.expectations) > 0
+//@   callsite Partitioner.Partition: requires[configured_partition_count] $numPartitions == ite(haskey(mp.TopicConfig.overridePartitions, msg.Topic), mp.TopicConfig.overridePartitions[msg.Topic], mp.TopicConfig.defaultPartitions)
+//@   callsite Partitioner.Partition: requires[this_message] $message == msg
+//@   loop 0: iter_ensures[checker_consulted] acq(len(mp.expectations)) > 0 && acq(mp.expectations[0]).CheckFunction != nil && mp.reported == it(mp.reported) ==> mp.checked == it(mp.checked) + 1
 //@   loop 0: iter_ensures[one_outcome_at_most] sent(mp.successes) + sent(mp.errors) <= it(sent(mp.successes) + sent(mp.errors)) + 1
 //@   loop 0: iter_ensures[consumes_first] acq(len(mp.expectations)) > 0 ==> len(mp.expectations) == acq(len(mp.expectations)) - 1 && forall k :: 0 <= k && k < len(mp.expectations) ==> mp.expectations[k] == acq(mp.expectations[k+1])
 //@   loop 0: iter_ensures[unexpected_input_reported] acq(len(mp.expectations)) == 0 ==> mp.reported == it(mp.reported) + 1 && sent(mp.successes) == it(sent(mp.successes)) && sent(mp.errors) == it(sent(mp.errors)) && mp.lastOffset == acq(mp.lastOffset)
